@@ -21,14 +21,31 @@ def build(kind, form=0):
     values only (Levels(k) is a set), never on the container."""
     from acnportal.acnsim.models import EVSE, DeadbandEVSE, FiniteRatesEVSE
     import numpy as np
+    def num(x):     # whole-valued limits are written as Python ints in every other case (32 instead of 32.0)
+        v = x / U
+        return int(v) if form % 2 and float(v).is_integer() else v
+
     if kind["cls"] == "cont":
-        return EVSE("E-1", max_rate=kind["max"] / U, min_rate=kind["min"] / U)
+        return EVSE("E-1", max_rate=num(kind["max"]), min_rate=num(kind["min"]))
     if kind["cls"] == "deadband":
-        return DeadbandEVSE("E-1", deadband_end=kind["end"] / U, max_rate=kind["max"] / U)
-    lv = [l / U for l in kind["levels"]]
+        return DeadbandEVSE("E-1", deadband_end=num(kind["end"]), max_rate=num(kind["max"]))
+    lv = [num(l) for l in kind["levels"]]
     form = form % 6
     arg = (lv, tuple(lv), np.array(lv), (x for x in lv), iter(lv), dict.fromkeys(lv).keys())[form]
     return FiniteRatesEVSE("E-1", arg)
+
+
+def pilot_value(step, salt):
+    """The number handed to set_pilot: NaN / +-inf for the special probes; a whole-ampere pilot is written as a Python
+    int, a float, or a numpy integer scalar (signed or unsigned) - the value is the same, so the verdict is."""
+    import numpy as np
+    if step.get("special"):
+        return {"nan": float("nan"), "inf": float("inf"), "-inf": float("-inf")}[step["special"]]
+    v = step["p"] / U
+    if float(v).is_integer() and 0 <= v < 200:
+        i = int(v)
+        return (i, float(i), np.int64(i), np.uint16(i), np.uint32(i))[salt % 5]   # (not float32: its arithmetic is legitimately coarser)
+    return v
 
 
 def companion(kind):
@@ -122,7 +139,7 @@ def replay_case(b):
                 evse.unplug()
             else:
                 try:
-                    evse.set_pilot(step["p"] / U, V, T)
+                    evse.set_pilot(pilot_value(step, n + form), V, T)
                 except InvalidRateError:
                     res = "invalid"
             if res != step["res"]:
@@ -156,7 +173,7 @@ def check_C13(tier, seed):
                         "accepted negative pilots (within tolerance of 0) are only applied to a vacant station"]
     mc = run_tlc("MC_EVSE", "EVSE_mc", coverage=True, overrides={} if tier == "thorough" else {"MaxOps": "= 2"})
     rep.add_tlc(mc, "exhaustive model checking: AdvertisedAccepted, PilotIsValid, RejectChangesNothing, OccupiedRefused",
-                "EVSE_mc", require_actions=["Plugin", "Unplug", "DoSetPilot", "Finish"])
+                "EVSE_mc", require_actions=["Plugin", "Unplug", "DoSetPilot", "SetSpecial", "Finish"])
     require_ok(mc, "EVSE model checking")
     cases = []
     gen = run_tlc("MC_EVSE", "EVSE_gen", workers=1, overrides={"MaxOps": "= 2"} if tier == "quick" else {"MaxOps": "= 3"},
@@ -179,7 +196,7 @@ def check_C13(tier, seed):
         rep.replayed += 1
         rep.count(k, nontrivial(b))
         if d is not None:
-            rep.violation("C13:%s:%s" % (b["kind"]["cls"], d["field"]), json.dumps(d)[:400], {"kind": "case", "module": "props_evse", "case": b, "mismatch": d})
+            rep.violation("C13:%s:%s" % (b["kind"]["cls"], d["field"]), json.dumps(d, default=repr)[:400], {"kind": "case", "module": "props_evse", "case": b, "mismatch": d})
     rep.exhaustive = True
     rep.notes.append("all %d call sequences of the exhaustive configuration replayed, plus %d sampled longer ones" % (n_ex, len(seen) - n_ex))
     rep.sample(cases[7])
